@@ -81,14 +81,21 @@ func newKeyGen(r *rand.Rand, n int) *keyGen {
 			g.pool = append(g.pool, b)
 		}
 	}
+	// the empty (non-nil) key is a valid key (node.validate accepts it)
 	return g
 }
+
+// withEmptyKey puts the empty (non-nil) key into the pool: it is a valid key (node.validate accepts it)
+func (g *keyGen) withEmptyKey() { g.pool[g.r.Intn(len(g.pool))] = []byte{} }
 
 func (g *keyGen) key() []byte { return g.pool[g.r.Intn(len(g.pool))] }
 
 // a key that is probably not in the pool: neighbour / prefix / extension of a pool key
 func (g *keyGen) probe() []byte {
 	b := append([]byte{}, g.key()...)
+	if len(b) == 0 {
+		return []byte{byte(g.r.Intn(2))}
+	}
 	switch g.r.Intn(5) {
 	case 0:
 		return append(b, 0)
@@ -134,6 +141,7 @@ type Profile struct {
 	Keys       int // key pool size
 	W          map[string]int
 	EmptyVals  bool
+	NoEmptyKey bool // ICS-23 cannot prove the empty key (C03-empty-key): the main C03 stream stays clear of it
 	ObsEvery   int // full observation burst after every n-th mutation (0 = only at the end)
 	Initials   []int64
 	Order      string // "" random | asc | desc | alt : insertion order for balance profiles
@@ -293,6 +301,10 @@ func obs(r *rand.Rand, g *keyGen, t *track, full bool, ops *[][]string) {
 // genM1 generates one MutableTree history.
 func genM1(r *rand.Rand, p Profile, id string) Case {
 	g := newKeyGen(r, p.Keys)
+	// one case in ten has the empty key in its pool (NoEmptyKey: the profile keeps clear of it)
+	if !p.NoEmptyKey && r.Intn(10) == 0 {
+		g.withEmptyKey()
+	}
 	iv := int64(-1)
 	if len(p.Initials) > 0 {
 		iv = p.Initials[r.Intn(len(p.Initials))]
